@@ -379,6 +379,13 @@ class Check(PropertyCheck):
                         inflight = None
                     self._last_ret = (cid, vals)
                 elif e[0] == "raise":
+                    if e[2] == KIND["timeout"]:
+                        # a command times out when ITS request went unanswered for the command timeout: a caller that
+                        # is still queued has sent nothing yet and cannot time out
+                        if not any(c == e[1] for c, _f in pending.values()):
+                            return f"command {e[1]} raised a timeout although its request was never sent (it was still queued)"
+                        if ev[0] != "timeout":
+                            return f"command {e[1]} raised a timeout in a step where no timer fired ({ev[0]})"
                     if inflight == e[1]:
                         inflight = None
                     waiting_prio.pop(e[1], None)
